@@ -71,7 +71,7 @@ def run(pid, tier, replay):
         r = core.tlc("mc/MC_MatchBook.tla", "mc/MC_MatchBook.cfg", workers=4, coverage=True, timeout=900)
         if r.violation:
             raise core.ToolError("MC_MatchBook violates its invariants:\n" + r.violation[:2000])
-        if any(n == 0 for a, n in r.coverage.items()):
+        if any(n == 0 for a, n in r.coverage.items() if not a.endswith(("Next", "Init", "Spec"))):
             raise core.ToolError("MC_MatchBook: action never taken: %s" % r.coverage)
         chk.add_tlc(r)
         scen = [{"kind": "bus", "bus": True, "steps": s, "origin": "adversarial"} for s in adversarial()]
